@@ -233,7 +233,11 @@ type c16Client struct {
 	once   sync.Once
 }
 
-func c16NewClient() (*c16Client, error) {
+func c16NewClient() (*c16Client, error) { return c16NewClientKind(false) }
+
+// negotiated = true: the client's only data channel is pre-negotiated, so ICE and DTLS complete but no
+// DATA_CHANNEL_OPEN is ever sent: the proxy's peer connection is connected and OnDataChannel never fires.
+func c16NewClientKind(negotiatedOnly bool) (*c16Client, error) {
 	s := webrtc.SettingEngine{}
 	s.SetICEMulticastDNSMode(ice.MulticastDNSModeDisabled)
 	pc, err := webrtc.NewAPI(webrtc.WithSettingEngine(s)).NewPeerConnection(webrtc.Configuration{})
@@ -241,7 +245,12 @@ func c16NewClient() (*c16Client, error) {
 		return nil, err
 	}
 	c := &c16Client{pc: pc, opened: make(chan struct{})}
-	c.dc, err = pc.CreateDataChannel("c16", nil)
+	var init *webrtc.DataChannelInit
+	if negotiatedOnly {
+		yes, id := true, uint16(0)
+		init = &webrtc.DataChannelInit{Negotiated: &yes, ID: &id}
+	}
+	c.dc, err = pc.CreateDataChannel("c16", init)
 	if err != nil {
 		return nil, err
 	}
@@ -836,12 +845,17 @@ func (e *c16Env) timeouts(M int) {
 	var clients []*c16Client
 	t0 := time.Now()
 	for i := 0; i < M; i++ {
-		c, err := c16NewClient()
+		c, err := c16NewClientKind(i%2 == 1)
 		if err != nil {
 			r.Note("timeouts: client: %v", err)
 			return
 		}
 		clients = append(clients, c)
+		if i%2 == 1 {
+			// the client connects (ICE + DTLS + SCTP) but never opens a data channel
+			start(i, &c16Plan{poll: "offer", offer: c.offer, client: c, answer: "accept", applyAfter: 0})
+			continue
+		}
 		// the client never applies the answer
 		start(i, &c16Plan{poll: "offer", offer: c.offer, client: c, answer: "accept", applyAfter: -1})
 	}
@@ -889,7 +903,7 @@ func (e *c16Env) timeouts(M int) {
 	mline := fmt.Sprintf("c16 events 1 %d %s,f0,x,c", N, strings.Join(mevs, ","))
 	mout := strings.Split(r.Model(mline), ",")
 	model := fmt.Sprintf("afterPlainTimeouts=1 final=%s", mout[len(mout)-1])
-	caseLine := fmt.Sprintf("%s  [%d sessions whose client never opens the data channel in parallel; one session polled twice (no match, then error): Clients=%s; one session with the client applying the answer %v after /answer and the OnDataChannel callback held until %v after /answer (callback held: %d, timeout arms taken: %d); runSession outcomes %s]",
+	caseLine := fmt.Sprintf("%s  [%d sessions whose client never opens the data channel in parallel (every second one connects with a pre-negotiated channel only, the others never apply the answer); one session polled twice (no match, then error): Clients=%s; one session with the client applying the answer %v after /answer and the OnDataChannel callback held until %v after /answer (callback held: %d, timeout arms taken: %d); runSession outcomes %s]",
 		mline, M, pollsNM, dataChannelTimeout-700*time.Millisecond, dataChannelTimeout+80*time.Millisecond, stalled, timedOut, outs)
 	r.Case(fmt.Sprintf("timeouts/M=%d/forced-f11-callback-held=%d", M, stalled), caseLine, true)
 	r.Case("exit/t", caseLine, true)
